@@ -66,6 +66,10 @@ const (
 	evReaderBit0
 )
 
+// evBuffered: a test of the connection writer found a response still buffered on this path - the next pipelined
+// request is already there, the connection is not waiting (bit chosen clear of the per-reader bits).
+const evBuffered uint64 = 1 << 61
+
 // serveLoop finds the function that dispatches Server.Handler inside a loop.
 func findServeLoop(p *Prog) (fn *ssa.Function, call *ssa.Call, header *ssa.BasicBlock, why string) {
 	for _, f := range p.funcsIn("") {
@@ -133,7 +137,7 @@ var serveFamilies = []*serveFamily{
 	{name: "close", rules: []string{"C10|R2a", "C10|R2b", "C10|R2c", "C10|R2d"}, mask: evRespClose | evNotHTTP11 | evKeepAliveHdr | evWrote | evHijackGo},
 	{name: "carried", rules: []string{"C11|R-loop", "C11|R-reset", "C07|R-default", "C35|R-reset"}, mask: evHandler | evReqReset | evRespReset, carried: true},
 	{name: "connstate", rules: []string{"C14|R1", "C14|R2"}, mask: evByteOK | evHandler, state: true},
-	{name: "shutdown", rules: []string{"C15|R3", "C15|R4"}, mask: evHandler | evWrote | evStopChecked | evIdleZero | evIdleMarked},
+	{name: "shutdown", rules: []string{"C15|R3", "C15|R4", "C15|R8"}, mask: evHandler | evWrote | evStopChecked | evIdleZero | evIdleMarked | evDirty | evBuffered},
 	{name: "timeout", rules: []string{"C16|R1", "C16|R2", "C16|R3", "C16|R5", "C10|R3"}, mask: evTimeoutT | evFreshCtx | evCopied | evHandler | evCtxSwapped | evTimeoutKnown},
 	{name: "hijack", rules: []string{"C17|R1", "C17|R3", "C17|R4"}, mask: evWrote | evFlushedAfterWrite | evHijackGo | evHijackNoResp},
 	{name: "head", rules: []string{"C03|R4"}, mask: evHandler | evHeadTested | evIsHead | evHeadSkip},
@@ -889,6 +893,10 @@ func (p *Prog) serveLoop(prop string) *serveResult {
 							if st.Has(evWrote) || st.Has(evHandler) {
 								setb(st, evIdleMarked)
 							}
+							if cur.name == "shutdown" {
+								check("C15|R8|the connection is marked idle only when no response is left in its write buffer", !st.Has(evDirty), st, in.Pos(),
+									"the idle timestamp is set while a response written for a pipelined request has not been flushed: Shutdown's idle closer may close the connection, the later flush fails silently and Shutdown returns nil although that response was never delivered")
+							}
 						}
 					case f.Name() == "Flush" && recvTypeName(f) == "Writer":
 						if st.Has(evWrote) {
@@ -1003,10 +1011,18 @@ func (p *Prog) serveLoop(prop string) *serveResult {
 			}
 			// an empty or absent connection writer holds no pending response
 			if bo, ok := v.(*ssa.BinOp); ok {
-				if c, isCall := bo.X.(*ssa.Call); isCall && bo.Op == token.GTR {
+				if c, isCall := bo.X.(*ssa.Call); isCall && (bo.Op == token.GTR || bo.Op == token.EQL || bo.Op == token.NEQ) {
 					if f := c.Call.StaticCallee(); f != nil && f.Name() == "Buffered" && recvTypeName(f) == "Writer" {
-						if k, isK := constInt(bo.Y); isK && k == 0 && !tk {
-							st.Clear(evDirty)
+						if k, isK := constInt(bo.Y); isK && k == 0 {
+							empty := (bo.Op == token.EQL) == tk
+							if bo.Op == token.GTR {
+								empty = !tk
+							}
+							if empty {
+								st.Clear(evDirty)
+							} else {
+								setb(st, evBuffered)
+							}
 						}
 					}
 				}
@@ -1087,7 +1103,7 @@ func (p *Prog) serveLoop(prop string) *serveResult {
 						"a path from the handler to the next iteration never consults requestStream.fullyRead() (or finds no request stream)")
 					check("C15|R3|stop flag tested after every response", st.Has(evStopChecked), st, hcall.Pos(),
 						"a path from the handler to the next iteration does not test s.stop")
-					check("C15|R4|idle marker set after the response", st.Has(evIdleMarked), st, hcall.Pos(),
+					check("C15|R4|idle marker set after the response", st.Has(evIdleMarked) || st.Has(evBuffered), st, hcall.Pos(),
 						"the connection goes back to waiting without its idle timestamp being set, so Shutdown cannot close it as idle")
 					check("C11|R-reset|request and response are reset before the next request", st.Has(evReqReset) && st.Has(evRespReset), st, hcall.Pos(),
 						"a path from the handler to the next iteration does not pass both Request.Reset and Response.Reset")
@@ -1399,6 +1415,7 @@ func (p *Prog) serveLoop(prop string) *serveResult {
 		"C10|R2a|no further request after the server announced Connection: close",
 		"C15|R3|stop flag tested after every response",
 		"C15|R4|idle marker set after the response",
+		"C15|R8|the connection is marked idle only when no response is left in its write buffer",
 		"C15|R4|idle marker is zero while the handler runs",
 		"C11|R-reset|request and response are reset before the next request",
 		"C14|R2|StateActive only after a byte was received",
